@@ -1,0 +1,181 @@
+// Verification contracts (comment-only, compiled only with the "verif" build tag; read by /verif/govc).
+
+//go:build verif
+// +build verif
+
+package ucon
+
+// Contracts for vote_cache.go and the signing path of voter.go — property C02:
+// "An honest validator never signs two conflicting votes, even across restarts".
+//
+// Argument (DESIGN §7 C02). The vote database holds a position pos = (round, roundIndex) and per vote type a mark.
+//  (a) a vote message is posted only after UpdateVoteData for exactly that (type, round, index) returned nil  [Voter.vote, typestate]
+//  (b) UpdateVoteData returns nil only if the latch votedAt(type, round, index) was open, and closes it        [refuse, latched]
+//  (c) no operation of the database moves the position backwards, and at an unchanged position no mark
+//      decreases                                                                                              [monotone, marks-kept]
+//  (d) a restart (NewVoteDB) re-establishes the position and marks of the persisted records                   [restore]
+//  (e) the latch is closed for every position before the current one                                         [votedAt definition]
+// By induction over the operations of one database (including restarts), at most cap(type) successful
+// UpdateVoteData calls exist per (type, round, index): cap = 2 for NextIndex, 1 otherwise.
+
+//@ spec func c02IsType(t: int) bool = t == Prevote || t == Precommit || t == Certificate || t == NextIndex
+//@ spec func c02PosLT(r1: int, i1: int, r2: int, i2: int) bool = r1 < r2 || (r1 == r2 && i1 < i2)
+//@ spec func c02PosLE(r1: int, i1: int, r2: int, i2: int) bool = r1 < r2 || (r1 == r2 && i1 <= i2)
+
+// votedAt(v, t, r, i): the latch — the database refuses another vote of type t at position (r, i).
+// Closed for every position before the stored one, and at the stored one when the type's mark reached its cap.
+//@ spec func votedAt(v: *VoteDB, t: int, r: int, i: int) bool =
+//@     v.round != nil &&
+//@     (c02PosLT(r, i, big(v.round), v.roundIndex) ||
+//@      (big(v.round) == r && v.roundIndex == i && ((t == NextIndex && v.mark[t] >= 2) || (t != NextIndex && v.mark[t] >= 1))))
+
+// Representation invariant: no mark exceeds its cap.
+//@ spec func c02WF(v: *VoteDB) bool = v.mark != nil &&
+//@     v.mark[Prevote] <= 1 && v.mark[Precommit] <= 1 && v.mark[Certificate] <= 1 && v.mark[NextIndex] <= 2 &&
+//@     (v.round == nil ==> v.roundIndex == 0 && v.mark[Prevote] == 0 && v.mark[Precommit] == 0 && v.mark[Certificate] == 0 && v.mark[NextIndex] == 0)
+
+// Object invariant of VoteDB: c02WF is established by NewVoteDB (asserted at its return), preserved by every function that
+// writes the fields (ensures [wf] below), and the fields are written by no other function (`owns`, checked on the SSA of
+// the whole package). It is therefore assumed at the entry of the methods.
+//@ owns VoteDB.round, VoteDB.roundIndex, VoteDB.mark by NewVoteDB, NewVoteDB$1, (*VoteDB).UpdateContext, (*VoteDB).UpdateVoteData props C02
+
+//@ func (*VoteDB).alreadyVoted props C02
+//@ panics none
+//@ requires [nonnil] v != nil && round != nil
+//@ assume [invariant] c02WF(v)
+//@ requires voteType == Prevote || voteType == Precommit || voteType == Certificate || voteType == NextIndex
+//@ pure
+//@ ensures [latch] result == votedAt(v, voteType, big(round), roundIndex)
+
+//@ func (*VoteDB).ExistVoteData props C02
+//@ panics none
+//@ requires [nonnil] v != nil && round != nil
+//@ assume [invariant] c02WF(v)
+//@ requires voteType == Prevote || voteType == Precommit || voteType == Certificate || voteType == NextIndex
+//@ pure
+//@ ensures [latch] result == votedAt(v, voteType, big(round), roundIndex)
+
+// Ghost: number of vote records written to the database by this process.
+//@ ghost var VotePuts: int
+
+// Helpers that build byte strings / signatures: no effect on modelled state.
+//@ effectfree github.com/youchainhq/go-youchain/consensus/ucon.VoteTypeToString github.com/youchainhq/go-youchain/consensus/ucon.Sign
+//@ effectfree github.com/youchainhq/go-youchain/consensus/ucon.AddrTypeKey github.com/youchainhq/go-youchain/rlp.EncodeToBytes
+//@ effectfree github.com/youchainhq/go-youchain/consensus/ucon.uint32ToBytes github.com/youchainhq/go-youchain/consensus/ucon.int8ToBytes
+//@ effectfree (*math/big.Int).Bytes github.com/youchainhq/go-youchain/consensus/ucon.VerifySignature
+//@ effectfree github.com/youchainhq/go-youchain/crypto.PubkeyToAddress
+
+//@ func (*VoteDB).UpdateVoteData props C02
+//@ opt abstract-slices
+//@ requires [nonnil] v != nil && round != nil
+//@ assume [invariant] c02WF(v)
+//@ requires voteType == Prevote || voteType == Precommit || voteType == Certificate || voteType == NextIndex
+//@ ghost after call (youdb.Putter).Put: VotePuts := VotePuts + 1
+//@ modifies v.round, v.roundIndex, v.mark, mapof(v.mark), VotePuts, all(elems(byte))
+//@ ensures [refuse]   old(votedAt(v, voteType, big(round), roundIndex)) ==> result != nil
+//@ ensures [persist]  result == nil ==> VotePuts == old(VotePuts) + 1
+//@ ensures [no-persist] result != nil ==> VotePuts == old(VotePuts)
+//@ ensures [pos]      result == nil ==> v.round == round && v.roundIndex == roundIndex
+//@ ensures [counted]  result == nil ==> v.mark[voteType] == old(if v.round != nil && big(v.round) == big(round) && v.roundIndex == roundIndex then v.mark[voteType] else 0) + 1
+//@ ensures [marks-kept] result == nil && old(v.round != nil && big(v.round) == big(round) && v.roundIndex == roundIndex) ==>
+//@                      forall t: int :: t != voteType ==> v.mark[t] == old(v.mark[t])
+//@ ensures [wf]       c02WF(v)
+//@ ensures [keeps-latches] forall t: int, r: int, i: int :: old(votedAt(v, t, r, i)) ==> votedAt(v, t, r, i)
+//@ ensures [unchanged-on-error] result != nil ==> v.round == old(v.round) && v.roundIndex == old(v.roundIndex) && v.mark == old(v.mark) && mapval(v.mark) == old(mapval(v.mark)) && mapdom(v.mark) == old(mapdom(v.mark))
+
+// UpdateContext: called by the voter on every context change, with whatever position the consensus engine is at
+// (after a restart that is index 1 of the current round, possibly BEFORE the persisted position).
+//@ func (*VoteDB).UpdateContext props C02
+//@ requires [nonnil] v != nil && round != nil
+//@ assume [invariant] c02WF(v)
+//@ modifies v.round, v.roundIndex, v.mark
+//@ ensures [monotone]   old(v.round) != nil ==> v.round != nil && c02PosLE(old(big(v.round)), old(v.roundIndex), big(v.round), v.roundIndex)
+//@ ensures [marks-kept] old(v.round) != nil && big(v.round) == old(big(v.round)) && v.roundIndex == old(v.roundIndex) ==>
+//@                      v.mark == old(v.mark)
+//@ ensures [wf]         c02WF(v)
+//@ ensures [keeps-latches] forall t: int, r: int, i: int :: old(votedAt(v, t, r, i)) ==> votedAt(v, t, r, i)
+
+// Own-signature check of a stored record: an uninterpreted predicate (ECDSA idealised).
+//@ spec func c02SigOK(vote: *VoteItem, a: common.Address) bool
+//@ func VerifySignature props C02
+//@ nobody
+//@ pure
+//@ ensures result == c02SigOK(vote, address)
+
+// ReadVoteData decodes what this node stored under the key of (type, slot). ASSUMED (database integrity, RLP decode):
+// a record found under the key of a vote type has that type and a non-nil round.
+//@ func ReadVoteData props C02
+//@ nobody
+//@ pure
+//@ ensures result != nil ==> result.Round != nil && result.VoteType == voteType
+
+// Restore: one persisted record is folded into the database state.
+//@ func NewVoteDB$1 props C02
+//@ requires v != nil && c02WF(v)
+//@ requires vote != nil ==> vote.Round != nil
+//@ requires vote != nil ==> vote.VoteType == Prevote || vote.VoteType == Precommit || vote.VoteType == Certificate || vote.VoteType == NextIndex
+//@ requires v.mark[NextIndex] <= 1 || vote == nil || vote.VoteType != NextIndex      // at most two NextIndex records exist (two key slots)
+//@ requires vote != nil && vote.VoteType != NextIndex ==> v.mark[vote.VoteType] == 0  // one record per other type (one key slot), read once
+//@ modifies v.round, v.roundIndex, v.mark, mapof(v.mark)
+//@ ensures [wf]         c02WF(v)
+//@ ensures [keeps-latches] forall t: int, r: int, i: int :: old(votedAt(v, t, r, i)) ==> votedAt(v, t, r, i)
+//@ let ok   = vote != nil && c02SigOK(vote, v.addr)
+//@ let adv  = vote != nil && c02SigOK(vote, v.addr) && (v.round == nil || c02PosLT(big(v.round), v.roundIndex, big(vote.Round), vote.RoundIndex))
+//@ let same = vote != nil && c02SigOK(vote, v.addr) && v.round != nil && big(v.round) == big(vote.Round) && v.roundIndex == vote.RoundIndex
+//@ ensures [advance]    adv ==> v.round == vote.Round && v.roundIndex == vote.RoundIndex &&
+//@                      (forall t: int :: c02IsType(t) ==> v.mark[t] == (if t == vote.VoteType then 1 else 0))
+//@ ensures [count]      same ==> v.round == old(v.round) && v.roundIndex == old(v.roundIndex) &&
+//@                      (forall t: int :: c02IsType(t) ==> v.mark[t] == old(v.mark[t]) + (if t == vote.VoteType then 1 else 0))
+//@ ensures [ignored]    !adv && !same ==> v.round == old(v.round) && v.roundIndex == old(v.roundIndex) && v.mark == old(v.mark) && mapval(v.mark) == old(mapval(v.mark)) && mapdom(v.mark) == old(mapdom(v.mark))
+//@ ensures [restored]   ok && vote.VoteType != NextIndex ==> votedAt(v, vote.VoteType, big(vote.Round), vote.RoundIndex)
+
+// NewVoteDB: after a restart every persisted, validly signed record of this validator is latched again:
+// another vote of that type at that position is refused (two records for NextIndex).
+//@ func NewVoteDB props C02
+//@ requires rawSk != nil
+//@ assert before return: [wf] c02WF(v)
+//@ assert before return: [restored-prevote]     prevote != nil && c02SigOK(prevote, v.addr) ==> votedAt(v, Prevote, big(prevote.Round), prevote.RoundIndex)
+//@ assert before return: [restored-precommit]   precommit != nil && c02SigOK(precommit, v.addr) ==> votedAt(v, Precommit, big(precommit.Round), precommit.RoundIndex)
+//@ assert before return: [restored-certificate] certificate != nil && c02SigOK(certificate, v.addr) ==> votedAt(v, Certificate, big(certificate.Round), certificate.RoundIndex)
+//@ assert before return: [restored-nextindex]   nextIndex1 != nil && c02SigOK(nextIndex1, v.addr) && nextIndex2 != nil && c02SigOK(nextIndex2, v.addr) &&
+//@                              big(nextIndex1.Round) == big(nextIndex2.Round) && nextIndex1.RoundIndex == nextIndex2.RoundIndex
+//@                              ==> votedAt(v, NextIndex, big(nextIndex1.Round), nextIndex1.RoundIndex)
+
+// ---------------------------------------------------------------------------------------------------------
+// The voter: a vote message leaves the node only after its record was persisted for exactly its type and position.
+
+//@ effectfree github.com/youchainhq/go-youchain/consensus/ucon.Encode github.com/youchainhq/go-youchain/consensus/ucon.VoteTypeToMsgCode
+//@ effectfree (github.com/youchainhq/go-youchain/common.Hash).Bytes (*github.com/youchainhq/go-youchain/event.TypeMux).AsyncPost
+//@ effectfree github.com/youchainhq/go-youchain/params.ValidatorKindToString
+
+// The function values the voter is configured with (sortition manager, look-back readers) and the signing helpers
+// do not write the vote database. ASSUMED thin contracts (`nobody`/`trusted`): heap havocked, ghost VotePuts untouched.
+//@ func dynamic:IsValidatorFn
+//@ trusted
+//@ modifies all
+
+//@ func (*Voter).signVote props C02
+//@ nobody
+//@ modifies all
+
+//@ func (*Voter).vote props C02
+//@ opt abstract-slices
+//@ requires [nonnil] v != nil && v.voteCache != nil && v.round != nil
+//@ requires c02IsType(voteType)
+//@ modifies all, VotePuts
+//@ assert before call (*event.TypeMux).AsyncPost: [persist-before-gossip] VotePuts == old(VotePuts) + 1
+//@ assert before call (*VoteDB).UpdateVoteData: [own-type-and-position] a1 == voteType
+//@ assert before call (*VoteDB).UpdateVoteData: [nothing-persisted-yet] VotePuts == old(VotePuts)
+
+// judgeVoteCount escalates (prevote quorum -> precommit, precommit quorum -> certificate vote): the vote types are constants.
+//@ func (*Voter).judgeVoteCount props C02
+//@ requires [nonnil] v != nil && v.voteCache != nil && v.round != nil
+//@ modifies all, VotePuts
+
+//@ func (*Voter).updateContext props C02
+//@ requires [nonnil] v != nil && v.voteCache != nil && ev.Round != nil
+//@ modifies all, VotePuts
+
+//@ func (*Voter).setMarkedBlock props C02
+//@ requires [nonnil] v != nil && v.voteCache != nil && v.round != nil
+//@ modifies all, VotePuts
